@@ -165,6 +165,8 @@ def _replay_emergency(n_farms, owners, fixed_kinds=None):
             funded, claimed = m['f%d_funded' % (k + 1)], m['f%d_claimed' % (k + 1)]
             if kind in ('active', 'future'):
                 start, end = m.get('f%d_start' % (k + 1), ep - 1 if kind == 'active' else ep + 1), ep + 5
+            elif kind == 'ended_unexpired':
+                start, end = m.get('f%d_start' % (k + 1), ep - 1), ep
             elif kind == 'exhausted_in_window':
                 start, end = m.get('f%d_start' % (k + 1), ep - 1), ep + 1
             else:
@@ -180,7 +182,9 @@ def _replay_emergency(n_farms, owners, fixed_kinds=None):
 
 # activity of a farm on the position's LP token: started with budget left / not started yet / ended long ago and exhausted /
 # exhausted (everything claimed) while still inside its emission window -- only the first kind is `currently active`
-KINDS = ['active', 'future', 'expired', 'exhausted_in_window']
+# 'ended_unexpired': past its preliminary end epoch with budget left and the expiration time not yet over -- still a currently active farm for the split
+KINDS = ['active', 'future', 'expired', 'exhausted_in_window', 'ended_unexpired']
+ACTIVE_KINDS = ('active', 'ended_unexpired')
 
 
 def _fid(k, n):
@@ -229,6 +233,11 @@ def _ob_emergency(n_farms, owners, fixed_kinds=None):
                 start, end = I.sym('f%d_start' % (k + 1), lo=1, hi=10 ** 6 + 4), simp(ep + 5)
                 I.assume(smt.And(start > ep, start < end))
                 I.assume(claimed < funded)
+            elif kind == 'ended_unexpired':
+                # the current epoch IS the preliminary end epoch (emission over), budget left, expiration (counted from the end) not reached
+                start, end = I.sym('f%d_start' % (k + 1), lo=1, hi=10 ** 6), ep
+                I.assume(start < ep)
+                I.assume(claimed < funded)
             elif kind == 'exhausted_in_window':
                 start, end = I.sym('f%d_start' % (k + 1), lo=1, hi=10 ** 6), simp(ep + 1)
                 I.assume(start <= ep)
@@ -250,7 +259,7 @@ def _ob_emergency(n_farms, owners, fixed_kinds=None):
         I.cover('ok', HINT_S)
         paid_owner = simp(b.get('alice', LP1) - pre.get('alice', LP1))
         paid_fc = simp(b.get(FC, LP1) - pre.get(FC, LP1))
-        act_owners = sorted(set(o for o, kd in zip(owners, kinds) if kd == 'active'))
+        act_owners = sorted(set(o for o, kd in zip(owners, kinds) if kd in ACTIVE_KINDS))
         paid_farm_owners = [simp(b.get(o, LP1) - pre.get(o, LP1)) for o in act_owners if o != 'alice']
         total_out = simp(pre.get(FM, LP1) - b.get(FM, LP1))
         I.check('position_deleted', _fm.get_position(I, 'u-a') is None)
